@@ -28,6 +28,7 @@ type Solver struct {
 	log     *os.File
 	timeoutMs int
 	dead    bool
+	closed  bool
 	stack   []*Term
 }
 
@@ -75,7 +76,19 @@ func (s *Solver) send(text string) {
 	}
 }
 
+// Kill terminates the solver process; pending and later queries answer unknown.
+func (s *Solver) Kill() {
+	s.dead = true
+	if s.cmd != nil && s.cmd.Process != nil {
+		s.cmd.Process.Kill()
+	}
+}
+
 func (s *Solver) Close() {
+	if s.closed {
+		return
+	}
+	s.closed = true
 	if s.cmd != nil {
 		s.in.Close()
 		s.cmd.Process.Kill()
@@ -194,7 +207,14 @@ func (s *Solver) Check(pc []*Term, wantModel []*Term, extra ...*Term) (Result, m
 	s.send(sb.String())
 	s.queries++
 	answers, bad := s.readUntilMarker()
-	s.elapsed += time.Since(t0)
+	dt := time.Since(t0)
+	s.elapsed += dt
+	if dt > 2*time.Second && os.Getenv("VERIF_SLOWQ") != "" {
+		fmt.Fprintf(os.Stderr, "slow query %.1fs: pc=%d extra=%v answers=%v\n", dt.Seconds(), len(pc), extra, answers)
+		for _, l := range extra {
+			fmt.Fprintf(os.Stderr, "   %s := %s\n", l.name, l.expr())
+		}
+	}
 	res := Unknown
 	if !bad {
 		for _, a := range answers {
